@@ -679,6 +679,24 @@ package ring
 //@   assigns p3
 //@   ensures val(p3) == old(val(p3)) - old(val(p1)) * old(val(p2)) && mexp(p3) == old(mexp(p3)) && dom(p3) == 1
 
+//@ afunc Ring.AddLazy
+//@   trusted ring-element view: the lazy variant computes the same ring element (its range is a coefficient-level matter)
+//@   requires ((isntt(p1) && isntt(p2)) || (iscoef(p1) && iscoef(p2))) && mexp(p1) == mexp(p2)
+//@   assigns p3
+//@   ensures val(p3) == old(val(p1)) + old(val(p2)) && mexp(p3) == old(mexp(p1)) && dom(p3) == ite(old(dom(p1)) == 2, old(dom(p2)), old(dom(p1)))
+
+//@ afunc Ring.MulCoeffsMontgomeryLazyThenAddLazy
+//@   trusted ring-element view (lazy variant of MulCoeffsMontgomeryThenAdd)
+//@   requires isntt(p1) && isntt(p2) && isntt(p3) && mexp(p3) == mexp(p1) + mexp(p2) - 1
+//@   assigns p3
+//@   ensures val(p3) == old(val(p3)) + old(val(p1)) * old(val(p2)) && mexp(p3) == old(mexp(p3)) && dom(p3) == 1
+
+//@ afunc Ring.MulCoeffsMontgomeryLazyThenSubLazy
+//@   trusted ring-element view (lazy variant of MulCoeffsMontgomeryThenSub)
+//@   requires isntt(p1) && isntt(p2) && isntt(p3) && mexp(p3) == mexp(p1) + mexp(p2) - 1
+//@   assigns p3
+//@   ensures val(p3) == old(val(p3)) - old(val(p1)) * old(val(p2)) && mexp(p3) == old(mexp(p3)) && dom(p3) == 1
+
 //@ afunc Ring.Add
 //@   trusted
 //@   requires ((isntt(p1) && isntt(p2)) || (iscoef(p1) && iscoef(p2))) && mexp(p1) == mexp(p2)
